@@ -23,7 +23,24 @@ def gen_scenario(rng):
         last["max_depth"] = rng.choice([0, 1, 1, 2])
     elif r < 0.85:
         last = {"name": last["name"], "fwd": False}
+    if rng.random() < 0.3:
+        # the requested product is already set up at another version and is replaced under a depth limit
+        multi = [n for n in sorted(w["products"]) if len(w["products"][n]) > 1]
+        if multi:
+            n = multi[-1]
+            vs = sorted(w["products"][n])
+            reqs = [{"name": n, "fwd": True, "version": vs[0]}]
+            last = {"name": n, "fwd": True, "version": vs[-1]}
+            r2 = rng.random()
+            if r2 < 0.5:
+                last["max_depth"] = rng.choice([1, 1, 2])
+            elif r2 < 0.7:
+                last["just"] = True
+            elif r2 < 0.9:
+                last["keep"] = True
     env0 = {"PATH": "/usr/bin:/bin"}
+    if rng.random() < 0.3:
+        env0["XLIST"] = "/pre/x;/pre/y"
     if rng.random() < 0.5:
         env0["PATH"] = "/usr/bin:@STACK@/Linux64/p1/1.0/bin:/opt/x/bin:/bin"
     if rng.random() < 0.3:
